@@ -13,8 +13,10 @@
    [policy]: [PreFix] is the decoder before commit 41ef764 (no check of the filename
    element); [Fix1] is the decoder of 41ef764 (filename elements are checked, but an entry
    that no filename element precedes keeps the name "" anywhere in the archive); [Fixed] is
-   the decoder as it is now (b7b089e: after the first returned node an entry without a
-   name is rejected -- the [started] flag). *)
+   the decoder of b7b089e (after the first returned node an entry without a name is
+   rejected -- the [started] flag); [Fixed] is the decoder as it is now (c6596cf: if the
+   first node is a nameless file, symlink or device -- the root of a single-object archive
+   -- no further node is accepted: the [leafRoot] flag). *)
 From Coq Require Import List NArith Bool.
 From DS Require Import Base.Bytes Base.GoPath.
 Import ListNotations.
@@ -32,7 +34,10 @@ Inductive elem :=
 | EUnsupported                             (* FormatIndex, FormatTable: "unsupported element" *)
 | EBad.                                    (* the element decoder returned an error *)
 
-Inductive policy := PreFix | Fix1 | Fixed.
+Inductive policy := PreFix | Fix1 | Fix2 | Fixed.
+
+(* a.started / a.leafRoot: nothing returned yet; something returned; the root entry was not a directory *)
+Inductive dstate := Fresh | Started | LeafRoot.
 
 Record nmeta := mkNMeta { n_mode : N; n_uid : N; n_gid : N; n_mtime : N; n_xattrs : list (bytes * bytes) }.
 
@@ -84,9 +89,16 @@ Inductive nres :=
 | NErr.
 
 (* if name == "" && a.started { return nil, InvalidFormat{"entry without a name"} } *)
-Definition nameless_rejected (pol : policy) (started : bool) (name : bytes) : bool :=
+Definition nameless_rejected (pol : policy) (ds : dstate) (name : bytes) : bool :=
   match pol, name with
-  | Fixed, [] => started
+  | Fix2, [] | Fixed, [] => match ds with Fresh => false | _ => true end
+  | _, _ => false
+  end.
+
+(* if a.leafRoot { return nil, InvalidFormat{"entry after a root entry that is not a directory"} } *)
+Definition leaf_rejected (pol : policy) (ds : dstate) : bool :=
+  match pol, ds with
+  | Fixed, LeafRoot => true
   | _, _ => false
   end.
 
@@ -94,12 +106,13 @@ Definition nameless_rejected (pol : policy) (started : bool) (name : bytes) : bo
 Definition name_rejected (pol : policy) (name : bytes) : bool :=
   match pol with PreFix => false | _ => bad_name name end.
 
-(* the code after the loop; [started] is a.started *)
-Definition finish_entry (pol : policy) (started : bool) (dir : bytes) (l : locals) (e : N * N * N * N)
+(* the code after the loop *)
+Definition finish_entry (pol : policy) (started : dstate) (dir : bytes) (l : locals) (e : N * N * N * N)
   (rest : list elem) : nres :=
   let '(mode, uid, gid, mtime) := e in
   let m := mkNMeta mode uid gid mtime (l_xattrs l) in
   if nameless_rejected pol started (l_name l) then NErr else
+  if leaf_rejected pol started then NErr else
   match l_payload l, l_device l, l_symlink l with
   | None, None, None =>
       let d := GoPath.join [dir; l_name l] in           (* a.dir = path.Join(a.dir, name) *)
@@ -110,7 +123,7 @@ Definition finish_entry (pol : policy) (started : bool) (dir : bytes) (l : local
   end.
 
 (* the loop of ArchiveDecoder.Next; [dir] is a.dir *)
-Fixpoint next_loop (pol : policy) (started : bool) (dir : bytes) (l : locals) (inp : list elem) : nres :=
+Fixpoint next_loop (pol : policy) (started : dstate) (dir : bytes) (l : locals) (inp : list elem) : nres :=
   match inp with
   | [] => NEnd                                           (* case nil: return nil, nil *)
   | c :: rest =>
@@ -165,41 +178,52 @@ Fixpoint next_loop (pol : policy) (started : bool) (dir : bytes) (l : locals) (i
       end
   end.
 
-(* ArchiveDecoder.Next; every returned node sets a.started *)
-Definition archive_next (pol : policy) (started : bool) (dir : bytes) (inp : list elem) : nres :=
-  next_loop pol started dir locals0 inp.
+(* ArchiveDecoder.Next *)
+Definition archive_next (pol : policy) (ds : dstate) (dir : bytes) (inp : list elem) : nres :=
+  next_loop pol ds dir locals0 inp.
+
+Definition is_dir_node (n : anode) : bool := match n with NDir _ _ => true | _ => false end.
+
+(* the flags after a node was returned: a.started = true, and
+   if name == "" && (payload != nil || device != nil || symlink != nil) { a.leafRoot = true } *)
+Definition dstate_after (pol : policy) (ds : dstate) (n : anode) (base : bytes) : dstate :=
+  match pol, ds, base with
+  | Fixed, Fresh, [] => if is_dir_node n then Started else LeafRoot
+  | _, LeafRoot, _ => LeafRoot
+  | _, _, _ => Started
+  end.
 
 (* NewArchiveDecoder: dir = "." *)
 Definition dir0 : bytes := [dot].
 
 (* every node the decoder yields for an element sequence (until the end or an error),
    with the raw entry names *)
-Fixpoint nodes_loop (fuel : nat) (pol : policy) (started : bool) (dir : bytes) (inp : list elem)
+Fixpoint nodes_loop (fuel : nat) (pol : policy) (ds : dstate) (dir : bytes) (inp : list elem)
   : list (anode * bytes) :=
   match fuel with
   | O => []
   | S f =>
-      match archive_next pol started dir inp with
-      | NNode n base dir' rest => (n, base) :: nodes_loop f pol true dir' rest
+      match archive_next pol ds dir inp with
+      | NNode n base dir' rest => (n, base) :: nodes_loop f pol (dstate_after pol ds n base) dir' rest
       | _ => []
       end
   end.
 Definition nodes_of (pol : policy) (inp : list elem) : list (anode * bytes) :=
-  nodes_loop (S (length inp)) pol false dir0 inp.
+  nodes_loop (S (length inp)) pol Fresh dir0 inp.
 
 (* how the decoding of the whole sequence ends: true = end of archive, false = error *)
-Fixpoint nodes_end_loop (fuel : nat) (pol : policy) (started : bool) (dir : bytes) (inp : list elem) : bool :=
+Fixpoint nodes_end_loop (fuel : nat) (pol : policy) (ds : dstate) (dir : bytes) (inp : list elem) : bool :=
   match fuel with
   | O => false
   | S f =>
-      match archive_next pol started dir inp with
-      | NNode _ _ dir' rest => nodes_end_loop f pol true dir' rest
+      match archive_next pol ds dir inp with
+      | NNode n base dir' rest => nodes_end_loop f pol (dstate_after pol ds n base) dir' rest
       | NEnd => true
       | NErr => false
       end
   end.
 Definition nodes_end (pol : policy) (inp : list elem) : bool :=
-  nodes_end_loop (S (length inp)) pol false dir0 inp.
+  nodes_end_loop (S (length inp)) pol Fresh dir0 inp.
 
 (* a relative clean path from its components: "." for none *)
 Definition rel (cs : list bytes) : bytes := match cs with [] => [dot] | _ :: _ => join47 cs end.
